@@ -39,6 +39,7 @@ fn bounds(tier: Tier) -> Vec<Cfg15> {
             c(Fam::Txt, 1, 2, 4),
             c(Fam::Map, 1, 2, 4),
             c(Fam::Nest, 0, 2, 3),
+            c(Fam::Nest, 1, 2, 3),
             c(Fam::Rtx, 0, 2, 3),
             c(Fam::Arr, 1, 2, 3),
         ],
